@@ -101,6 +101,17 @@ def observe(cmd, args):
     if cmd == "det.email":
         def f(t): return list(parse_email(t))
         return guarded(f, args[0] if args[1] == "s" else args[0].encode("latin-1"))
+    if cmd == "det.fn":             # plain functions of one string: result or documented exception class
+        import packaging.utils as U
+        from packaging.licenses import canonicalize_license_expression, InvalidLicenseExpression
+        name, arg = args
+        fns = {"license": lambda t: canonicalize_license_expression(t), "name": lambda t: U.canonicalize_name(t), "name.validate": lambda t: U.canonicalize_name(t, validate=True),
+               "is_normalized": lambda t: U.is_normalized_name(t), "canon_version": lambda t: U.canonicalize_version(t), "canon_version.nostrip": lambda t: U.canonicalize_version(t, strip_trailing_zero=False),
+               "sdist": lambda t: [str(x) for x in U.parse_sdist_filename(t)], "version": lambda t: str(Version(t)), "specifier": lambda t: str(Specifier(t))}
+        def f(t):
+            try: return fns[name](t)
+            except (InvalidLicenseExpression, U.InvalidName, U.InvalidSdistFilename) as e: return "E:" + type(e).__name__
+        return guarded(f, arg)
     if cmd == "det.shared":         # one SpecifierSet object, a sequence of operations in the given order; result = per-operation answers, sorted by op
         text, ops = args[0], json.loads(args[1])
         try: ss = SpecifierSet(text)
